@@ -56,6 +56,11 @@ func vxLimitTemplates() []vxLimitTpl {
 		{ // 5: same-round join
 			t: vxTemplates()[2],
 		},
+		{ // 6: an intermediate join larger than its filtered result
+			t: vxTemplate{name: "join-then-filter", rules: []ast.Clause{
+				vxRule(vxA("jq", "X", "Y"), vxA("ja", "X"), vxA("jb", "Y"), vxA("jc", "Y")),
+			}, edb: []ast.PredicateSym{vxP("ja", 1), vxP("jb", 1), vxP("jc", 1)}, idb: []ast.PredicateSym{vxP("jq", 2)}},
+		},
 	}
 }
 
